@@ -298,7 +298,13 @@ func ComplexArbitraryToFixedPointCRT(r *ring.Ring, values []*bignum.Complex, sca
 
 func BigFloatToFixedPointCRT(r *ring.Ring, values []*big.Float, scale *big.Float, coeffs [][]uint64) {
 
-	prec := values[0].Prec()
+	// Working precision: the largest one among the scale and the (non-nil) values.
+	prec := scale.Prec()
+	for _, v := range values {
+		if v != nil && v.Prec() > prec {
+			prec = v.Prec()
+		}
+	}
 
 	xFlo := bignum.NewFloat(0, prec)
 	xInt := new(big.Int)
